@@ -167,7 +167,9 @@ pub fn template<S: Src, const T: usize>(s: &mut S) -> Verdict {
             text.push(x);
             text.extend_from_slice(b" IN A 1.2.3.4");
             let d = x.wrapping_sub(b'0') as u32;
-            (x >= b'0' && x <= b'9', wire_of(b"ab.cd", 1, 360 + d, &[1, 2, 3, 4]))
+            // a space or tab here ends the TTL after "36" (more whitespace follows)
+            let ws = x == b' ' || x == b'\t';
+            ((x >= b'0' && x <= b'9') || ws, wire_of(b"ab.cd", 1, if ws { 36 } else { 360 + d }, &[1, 2, 3, 4]))
         }
         // TTL at the 2^32 edge: 429496729X accepted for X <= 5
         1 => {
@@ -175,14 +177,17 @@ pub fn template<S: Src, const T: usize>(s: &mut S) -> Verdict {
             text.push(x);
             text.extend_from_slice(b" IN A 1.2.3.4");
             let d = x.wrapping_sub(b'0') as u32;
-            (x >= b'0' && x <= b'5', wire_of(b"ab.cd", 1, 4294967290u32.wrapping_add(d), &[1, 2, 3, 4]))
+            let ws = x == b' ' || x == b'\t';
+            ((x >= b'0' && x <= b'5') || ws, wire_of(b"ab.cd", 1, if ws { 429496729 } else { 4294967290u32.wrapping_add(d) }, &[1, 2, 3, 4]))
         }
         // last octet digit: 25X accepted for X <= 5
         2 => {
             text.extend_from_slice(b"ab.cd 7 IN A 1.2.3.25");
             text.push(x);
             let d = x.wrapping_sub(b'0');
-            (x >= b'0' && x <= b'5', wire_of(b"ab.cd", 1, 7, &[1, 2, 3, 250u8.wrapping_add(d)]))
+            // trailing horizontal whitespace is part of the grammar
+            let ws = x == b' ' || x == b'\t';
+            ((x >= b'0' && x <= b'5') || ws, wire_of(b"ab.cd", 1, 7, &[1, 2, 3, if ws { 25 } else { 250u8.wrapping_add(d) }]))
         }
         // the separator between TTL and class: ttl_parser requires one horizontal whitespace
         3 => {
@@ -204,10 +209,11 @@ pub fn template<S: Src, const T: usize>(s: &mut S) -> Verdict {
             text.push(x);
             text.extend_from_slice(b" m.x");
             let d = x.wrapping_sub(b'0') as u16;
-            let pref = 65530u16.wrapping_add(d);
+            let ws = x == b' ' || x == b'\t';
+            let pref = if ws { 6553 } else { 65530u16.wrapping_add(d) };
             let mut rd = vec![(pref >> 8) as u8, pref as u8];
             push_name(&mut rd, b"m.x");
-            (x >= b'0' && x <= b'5', wire_of(b"ab.cd", 15, 7, &rd))
+            ((x >= b'0' && x <= b'5') || ws, wire_of(b"ab.cd", 15, 7, &rd))
         }
         // a TXT character: printable ASCII except backslash and the closing quote
         6 => {
@@ -251,6 +257,20 @@ pub fn template<S: Src, const T: usize>(s: &mut S) -> Verdict {
             text.extend_from_slice(b"55\"");
             let d = x.wrapping_sub(b'0');
             (x >= b'0' && x <= b'2', wire_of(b"ab.cd", 16, 7, &[1, d.wrapping_mul(100).wrapping_add(55)]))
+        }
+        // last character of an NS target (trailing position: the prefix parses concretely)
+        12 => {
+            text.extend_from_slice(b"ab.cd 7 IN NS n.e");
+            text.push(x);
+            let ws = x == b' ' || x == b'\t';
+            let ok = (spec::is_ldhu(x) && x != b'_') || ws;
+            let mut rd = Vec::new();
+            if ws {
+                push_name(&mut rd, b"n.e");
+            } else {
+                push_name(&mut rd, &[b'n', b'.', b'e', x]);
+            }
+            (ok, wire_of(b"ab.cd", 2, 7, &rd))
         }
         // SOA: the last counter digit
         _ => {
@@ -338,3 +358,8 @@ pub fn insert_text<S: Src, K: Skel, const SEC: u8, const WHICH: u8>(s: &mut S) -
     vcover!(s, true, "end");
     Ok(())
 }
+
+/// stand-in for `backtrace::trace` under the model checker: chomp's error
+/// type collects a backtrace in debug-profile builds through a foreign call
+/// (`_Unwind_Backtrace`) that CBMC cannot execute. No frames are reported.
+pub fn trace_stub(_cb: &mut dyn FnMut(&dyn backtrace::Frame) -> bool) {}
